@@ -40,6 +40,12 @@ def plan(tier, seed):
         jobs += thrift_struct.jobs("C10", tier, seed)
     except ImportError:
         pass
+    # the structures the writer hands to the serialiser carry the 32-bit markers the serialiser relies on (checked on
+    # everything write_column emits: chunk, encoding stats, statistics, page headers)
+    from . import wc_lattice
+    wc = wc_lattice.jobs("C10", tier)
+    jobs += wc if tier == "thorough" else [j for j in wc if "cats=1,none,null=1" in j["name"] or
+                                           "v2,cats=0,none,null=1,pages=2" in j["name"]]
     extra = dict(
         explanation="T1: the varint/zigzag kernels (LLVM IR of the generated C) are compared with ULEB128/zigzag over "
                     "the full 64-bit range by z3. T4: ThriftObject.to_bytes, write_thrift and write_list are lifted "
